@@ -55,8 +55,33 @@ func VerifRun_C02f() {
 		}
 	}
 	edit(rounds)
+	// optionally the user then deletes everything: select all + delete arrives as one incremental change
+	// over the whole document (or, from clients without incremental sync, as an empty full text)
+	emptied := verifConcretize(verifRange("emptied", 0, 2))
+	if emptied == 1 {
+		_ = l.TextDocumentDidChange(ctx, lsp.DidChangeTextDocumentParams{
+			TextDocument:   lsp.VersionedTextDocumentIdentifier{TextDocumentIdentifier: id},
+			ContentChanges: []lsp.TextDocumentContentChangeEvent{{Text: ""}}})
+	} else if emptied == 2 {
+		nl := uint32(0)
+		for i := 0; i < len(cur); i++ {
+			if cur[i] == '\n' {
+				nl++
+			}
+		}
+		rg := lsp.Range{Start: lsp.Position{Line: 0, Character: 0}, End: lsp.Position{Line: nl, Character: 0}}
+		_ = l.TextDocumentDidChange(ctx, lsp.DidChangeTextDocumentParams{
+			TextDocument:   lsp.VersionedTextDocumentIdentifier{TextDocumentIdentifier: id},
+			ContentChanges: []lsp.TextDocumentContentChangeEvent{{Range: &rg, Text: ""}}})
+	}
 	syms, _ := l.TextDocumentSymbol(ctx, lsp.DocumentSymbolParams{TextDocument: id})
 	verifReach("outlined")
+	if emptied != 0 {
+		if len(syms) != 0 {
+			verifViolation("", "after the whole document is deleted the outline still lists symbols: the request was answered from the file on disk, not from the (empty) buffer")
+		}
+		return
+	}
 	var names []string
 	var walk func(v []lsp.DocumentSymbol)
 	walk = func(v []lsp.DocumentSymbol) {
